@@ -5,20 +5,21 @@
      ask    req, msg, mode ("once" | "timeout" | "channel"), class ("immediate" | "prompt" | "never" | "late" | "boundary": the reply is produced within microseconds of the deadline)
      res    req, val, err ("nil" | "timeout" | "lost")           the asker's call returned / its channel delivered
      reply  req, outcome ("ok" | "panic")                        the actor's Reply returned / panicked
-     probe  ok                                                   after the run a fresh request was still answered
+     probe  ok                                                   after the run a fresh request was still answered (and every ask call has returned by then)
    Rules: a result with err = nil carries F(msg) of the SAME request; classes immediate / prompt must get (F(msg), nil);
    class never / late must get (zero, timeout); no Reply ever panics; the probe is answered.                         *)
 EXTENDS Integers, Sequences, FiniteSets, TLC, Json, IOUtils
 Trace == ndJsonDeserialize(IOEnv.VERIF_TRACE)
 MaxBad == 60
 F(m) == 10 * m + 1
-VARIABLES l, asked, nbad
-vars == <<l, asked, nbad>>
-Init == l = 1 /\ asked = <<>> /\ nbad = 0          \* asked: req -> [msg, class, mode]  (as a sequence indexed by req)
+VARIABLES l, asked, nbad, pending
+vars == <<l, asked, nbad, pending>>
+Init == l = 1 /\ asked = <<>> /\ nbad = 0 /\ pending = {}          \* asked: req -> [msg, class, mode]  (as a sequence indexed by req)
 Bad(why) == PrintT(<<"MISMATCH", l, why>>) /\ nbad' = nbad + 1 /\ UNCHANGED asked
 Next ==
   /\ l <= Len(Trace) /\ nbad < MaxBad
   /\ l' = l + 1
+  /\ pending' = (LET e == Trace[l] IN CASE e.ev = "reset" -> {} [] e.ev = "ask" -> pending \cup {e.req} [] e.ev = "res" -> pending \ {e.req} [] OTHER -> pending)
   /\ LET e == Trace[l] IN
      CASE e.ev = "reset" -> asked' = [r \in 1..e.n |-> [msg |-> 0, class |-> "-", mode |-> "-"]] /\ nbad' = nbad
        [] e.ev = "ask"   -> asked' = [asked EXCEPT ![e.req] = [msg |-> e.msg, class |-> e.class, mode |-> e.mode]] /\ nbad' = nbad
@@ -29,7 +30,9 @@ Next ==
             ELSE IF q.class = "boundary" /\ ~(e.err = "nil" \/ (e.err = "timeout" /\ e.val = 0)) THEN Bad("a reply at the deadline: neither the reply nor (zero, ErrActorAskTimeout) but " \o e.err)
             ELSE UNCHANGED <<asked, nbad>>
        [] e.ev = "reply" -> IF e.outcome # "ok" THEN Bad("Reply panicked: " \o asked[e.req].class) ELSE UNCHANGED <<asked, nbad>>
-       [] e.ev = "probe" -> IF ~e.ok THEN Bad("the actor stopped serving requests") ELSE UNCHANGED <<asked, nbad>>
+       [] e.ev = "probe" -> IF pending \ {Len(asked)} # {}                        \* (request Len(asked) is the probe's own)
+                              THEN Bad("an ask call never returned (class " \o asked[CHOOSE r \in pending \ {Len(asked)} : TRUE].class \o ")")
+                            ELSE IF ~e.ok THEN Bad("the actor stopped serving requests") ELSE UNCHANGED <<asked, nbad>>
        [] OTHER -> UNCHANGED <<asked, nbad>>
 Spec == Init /\ [][Next]_vars
 Consumed == PrintT(<<"CONSUMED", TLCGet("stats").diameter - 1, Len(Trace)>>)
